@@ -48,7 +48,38 @@ def gen(rng, k):
             if z.any() and keep.sum() >= 3 and np.linalg.matrix_rank(np.hstack([np.ones((keep.sum(), 1)), idx[keep]])) == 3:
                 w[z] = 0.0
                 break
+    if k % 13 == 9:
+        # weights spread over more than 1/eps: two strong peaks that do not fix the lattice by themselves, the remaining degrees
+        # of freedom are decided by the relative weights of the very weak ones (compared with an exact rational solution)
+        n = int(rng.integers(5, 9))
+        while True:
+            idx = rng.integers(-4, 5, (n, 2)).astype(np.float64)
+            if np.linalg.matrix_rank(np.hstack([np.ones((n, 1)), idx])) == 3 and len({tuple(r) for r in idx.tolist()}) == n:
+                break
+        pts = zero + idx @ np.array([a, b]) + rng.normal(0, 0.5, (n, 2))
+        w = np.concatenate([[100.0, 100.0], 10 ** rng.uniform(-20, -15, n - 2)])
+        return {"idx": idx, "pts": pts, "w": w, "exact": True}
     return {"idx": idx, "pts": pts, "w": w}
+
+
+def exact_wls(idx, pts, w):
+    """weighted least-squares lattice (zero, a, b) by Cramer's rule on the normal equations in rational arithmetic"""
+    from fractions import Fraction as F
+    rows = [[F(1), F(float(i)), F(float(j))] for i, j in idx]
+    ww = [F(float(x)) for x in w]
+    A = [[sum(wk * r[p] * r[q] for wk, r in zip(ww, rows)) for q in range(3)] for p in range(3)]
+
+    def det3(m):
+        return (m[0][0] * (m[1][1] * m[2][2] - m[1][2] * m[2][1]) - m[0][1] * (m[1][0] * m[2][2] - m[1][2] * m[2][0])
+                + m[0][2] * (m[1][0] * m[2][1] - m[1][1] * m[2][0]))
+    d = det3(A)
+    out = np.zeros((3, 2))
+    for col in range(2):
+        rhs = [sum(wk * r[p] * F(float(y[col])) for wk, r, y in zip(ww, rows, pts)) for p in range(3)]
+        for v in range(3):
+            m = [[rhs[p] if q == v else A[p][q] for q in range(3)] for p in range(3)]
+            out[v, col] = float(det3(m) / d)
+    return out
 
 
 def model_fit(drv, idx, pts, w):
@@ -114,6 +145,13 @@ def run_case(kind, p):
         msgs.append("affinematch does not select all points")
     if np.isnan(m.zero).any():
         return ["affinematch returned an invalid match for a rank-3 problem"]
+    if p.get("exact"):
+        ex = exact_wls(idx, pts, w)
+        got = np.array([m.zero, m.a, m.b])
+        if np.abs(got - ex).max() > 0.01:
+            msgs.append(f"weights spread over {w.max() / w.min():.1e}: fit {got.tolist()} differs from the exact weighted "
+                        f"least-squares optimum {ex.tolist()} by {np.abs(got - ex).max():.3g}")
+        return msgs
     best = wss(m.zero, m.a, m.b, idx, pts, w)
     scale = max(1.0, np.abs(pts).max())
     for _ in range(40):
